@@ -40,6 +40,9 @@ def kitchen_sink():
         {"name": "int_list", "def": AGG("LIST", 0, None, T("int"))},
         {"name": "measure", "def": {"k": "select", "members": ["cnt", "ratio", "label"]}},
         {"name": "thing", "def": {"k": "select", "members": ["measure", "color", "point"]}},
+        {"name": "label2", "def": D("label")},
+        {"name": "real_bag", "def": AGG("BAG", 0, None, T("real"))},
+        {"name": "anything", "def": {"k": "select", "members": ["real_bag", "int_list", "wide"]}},
     ]
     ents = [
         ENT("point", [A("x", T("real")), A("y", T("real")), A("name", D("label"), True)]),
@@ -60,8 +63,27 @@ def kitchen_sink():
         ENT("both", [A("z", T("int"))], supers=["left", "right"]),
         ENT("wrapper", [A("v", T("real"))]),
         ENT("wrapper_d", [], supers=["wrapper"], derived=[{"name": "v", "type": T("real"), "redecl": "wrapper", "value": "1.0"}]),
+        # explicit redeclaration (type narrowing), renamed simple type, aggregates inside a select
+        ENT("wide", [A("w", T("number")), A("nm", D("label2"), True)]),
+        ENT("narrow", [dict(A("w", T("int")), redecl="wide"), A("extra", D("anything"))], supers=["wide"]),
+        # C++ keywords as entity names
+        ENT("class", [A("delete", T("int")), A("new", E("union"), True)]),
+        ENT("union", [A("int", AGG("LIST", 0, 3, T("string"), unique=True))]),
+        # AND and mixed supertype expressions
+        ENT("vehicle", [A("vid", T("int"))], super_expr="powered AND wheeled"),
+        ENT("powered", [A("kw", T("real"))], supers=["vehicle"]),
+        ENT("wheeled", [A("wheels", T("int"))], supers=["vehicle"]),
+        ENT("craft", [A("cid", T("string"))], abstract=True, super_expr="ONEOF (boat, plane ANDOR drone)"),
+        ENT("boat", [A("draft", T("real"))], supers=["craft"]),
+        ENT("plane", [A("span", T("real"))], supers=["craft"]),
+        ENT("drone", [A("rotors", T("int"))], supers=["craft"]),
+        # two independent supertypes
+        ENT("named", [A("nm1", T("string"))]),
+        ENT("dated", [A("yr", T("int"))]),
+        ENT("record", [A("payload", T("binary"))], supers=["named", "dated"]),
     ]
     return {"name": "kitchen_sink", "types": types, "entities": ents,
-            "legal_complex": [["base", "left", "right"]],
-            "simple_ok": ["point", "circle", "poly", "bag_of_stuff", "base", "left", "right", "both", "wrapper", "wrapper_d"],
+            "legal_complex": [["base", "left", "right"], ["vehicle", "powered", "wheeled"], ["craft", "plane", "drone"]],
+            "simple_ok": ["point", "circle", "poly", "bag_of_stuff", "base", "left", "right", "both", "wrapper", "wrapper_d",
+                          "wide", "narrow", "class", "union", "vehicle", "boat", "plane", "drone", "named", "dated", "record"],
             "features": {"hand_written": True}}
